@@ -43,6 +43,8 @@ def run(ctx):
         for pr in pairs4:
             osets = e.option_sets(sh)
             for opts in (osets if th else [osets[0]] + rng.sample(osets[1:], min(2, len(osets) - 1))):
+                if opts.get("reftgt") and pr == "samerepo":
+                    continue
                 fts = e.features(sh, opts)
                 for ft in (fts if th else [rng.choice(fts)]):
                     base.append(e.scn(sh, pr, "base", opts=dict(opts), mode="fifo", tag0=rng.choice(["none", "stale"]),
